@@ -548,13 +548,15 @@ func (e *c14kEnv) run(steps []c14kStep) {
 				e.nTx++ // the model numbers gorm's own transaction too
 			}
 		case "reset":
+			// only when the handle's statement pool IS the cache struct; through a wrapped handle (stored programs of earlier
+			// generators) nothing is reset on the real code, so the model is not told either
 			if p, ok := h.Statement.ConnPool.(*gorm.PreparedStmtDB); ok {
 				p.Reset()
 				e.d.cnt.mu.Lock()
 				e.d.cnt.gen++
 				e.d.cnt.mu.Unlock()
+				e.obs.Ops = append(e.obs.Ops, []interface{}{"reset", s.H})
 			}
-			e.obs.Ops = append(e.obs.Ops, []interface{}{"reset", s.H})
 		}
 	}
 }
@@ -686,6 +688,7 @@ type c14kGenH struct {
 	canBegin bool
 	canConn  bool
 	skipDtx  bool
+	wrapped  bool // the statement's pool is a plugin wrapper (op wrap, and plain sessions derived from it)
 }
 
 type c14kGen struct {
@@ -720,6 +723,7 @@ func (g *c14kGen) session(h int, prep bool) c14kStep {
 		} else {
 			// the registered cache on the root pool, whatever the handle was on (pinned connection, wrapper)
 			n.kind, n.canBegin, n.canConn = "pdb", g.rootBeg, g.rootConn
+			n.wrapped = false
 		}
 	}
 	g.hs = append(g.hs, n)
@@ -768,6 +772,7 @@ func (g *c14kGen) block(n int, depth int, scope func(h c14kGenH, i int) bool) []
 			if v == 0 {
 				nh.canBegin, nh.canConn = false, false
 			}
+			nh.wrapped = true
 			g.hs = append(g.hs, nh)
 			out = append(out, c14kStep{Op: "wrap", H: h, Variant: v})
 		case r < 42 && depth < 3: // Connection
@@ -810,7 +815,9 @@ func (g *c14kGen) block(n int, depth int, scope func(h c14kGenH, i int) bool) []
 			}
 			out = append(out, st)
 		case r < 59 && depth == 0: // Reset through a prepared handle
-			if h := pickIn(func(h c14kGenH) bool { return h.kind == "pdb" }); h >= 0 {
+			// Reset is a method of *PreparedStmtDB: a handle whose statement pool is a plugin WRAPPER around it gives an
+			// application no cache to reset (the wrapper hides it) — never generated through such a handle
+			if h := pickIn(func(h c14kGenH) bool { return h.kind == "pdb" && !h.wrapped }); h >= 0 {
 				out = append(out, c14kStep{Op: "reset", H: h})
 			}
 		default:
